@@ -580,6 +580,10 @@ def run(model, rep, tier):
     check_operators(model, rep, oracle)
     check_algebra(model, rep)
     check_parsing(model, rep, oracle)
+    from rules import round5 as _r5
+    rep.rule('R20.11', 'new base symbols are checked with the tokenizer of dimension strings; an exponent is used only after its sign is settled (unit._Units.parse)')
+    _r5.check_dimension_create_guard(model, rep, 'R20.11')
+    _r5.check_sign_before_use(model, rep, 'R20.11', ('unit:_Units.parse',))
     rep.rule('R20.10', 'every name loaded in SI.py and unit.py resolves (symtable)')
     from rules import names as _names
     _names.check(model, rep, 'R20.10', ('SI', 'unit'), 60)
